@@ -473,6 +473,9 @@ func (pr *printer) inl(e Expr) (string, int) {
 		if x.V < 0 {
 			return fmt.Sprintf("0 - %d", -x.V), 2
 		}
+		if x.Pad > 0 {
+			return fmt.Sprintf("%0*d", x.Pad, x.V), 0
+		}
 		return fmt.Sprint(x.V), 0
 	case *StrLit:
 		return strLit(x.V), 0
